@@ -117,6 +117,11 @@ def gen_cases(tier, seed):
             for offset in (0.0, 1e3, 1e4):
                 for dtype in ("float64", "float32"):
                     cases.append(dict(kind="tall", m=m, n=n, offset=offset, dtype=dtype))
+    # wide matrices (added after a seeded change - Krum's distances accumulated over blocks of 2048 columns as a sum of block
+    # norms instead of the root of the sum of squares - was missed: every matrix had <= 3 columns)
+    for n in (2500, 4100, 9000):
+        for dtype in ("float64", "float32"):
+            cases.append(dict(kind="wide", n=n, dtype=dtype))
     cases.append(dict(kind="bufreuse"))  # one instance, one matrix buffer re-filled in place (mc/bufreuse.py)
     return cases
 
@@ -172,6 +177,8 @@ class _Acc:
 
 
 def _desc(Jd, S, dtype):
+    if Jd.shape[1] > 16:  # wide family: the matrix is rebuilt from the case (kind='wide', n, dtype) on replay
+        return f"J=<{Jd.shape[0]}x{Jd.shape[1]} wide family, first columns {Jd[:, :3].tolist()}> corrupted_rows={list(S)} {dtype}"
     return f"J={Jd.tolist()} corrupted_rows={list(S)} {dtype}"
 
 
@@ -372,7 +379,53 @@ def _run_tall(acc, case):
             acc.nontriv += int(bool(S))
 
 
+def _run_wide(acc, case):
+    """n in the thousands; honest rows = ones + deviations that are spread over all columns (rows 1, 2) or concentrated on one
+    column (rows 3, 4), sized so that the k = 2 selection changes if distances are not the global Euclidean ones (counted in
+    `wide_block_sensitive` against a blockwise-sum model with blocks of 2048); with and without one far corrupted row at every
+    position x every corruption value; Krum f in {r, 1}, k in {1, 2, 3}; TrimmedMean b in {r, 1}."""
+    import torch
+
+    n, dtype = case["n"], case["dtype"]
+    dt = getattr(torch, dtype)
+    j = np.arange(n)
+    s1 = np.where(j % 2 == 0, 1.0, -1.0) / math.sqrt(n)
+    s2 = np.where((j // 2) % 2 == 0, 1.0, -1.0) / math.sqrt(n)
+    e0 = np.zeros(n); e0[0] = 1.0
+    e1 = np.zeros(n); e1[1] = 1.0
+    honest = np.ones((5, n)) + np.stack([0 * s1, 1.0 * s1, 1.05 * s2, 1.2 * e0, 1.2 * e1])
+    V = _values(n)
+    for pos in [None] + list(range(6)):
+        for vi in (range(len(V)) if pos is not None else [0]):
+            if pos is None:
+                J, S = honest.copy(), ()
+            else:
+                J = np.insert(honest, pos, V[vi] * 2.2, axis=0)
+                S = (pos,)
+            m = J.shape[0]
+            keep = [i for i in range(m) if i not in S]
+            Jt = torch.tensor(J, dtype=dt)
+            Jd = Jt.double().numpy()
+            sigma = float(np.abs(Jd[keep]).max())
+            r = len(S)
+            for b in sorted({r, 1}):
+                _check_tm(acc, Jt, Jd, S, Jd[keep], sigma, b, dtype, False)
+            for f in sorted({r, 1}):
+                scores = R.krum_scores(Jd, f)
+                D = sum(np.sqrt(((Jd[:, None, lo:lo + 2048] - Jd[None, :, lo:lo + 2048]) ** 2).sum(axis=2)) for lo in range(0, n, 2048))
+                alt = [float(np.sort(np.delete(D[i], i))[: m - f - 2].sum()) for i in range(m)]
+                for k in (1, 2, 3):
+                    if set(np.argsort(scores)[:k].tolist()) != set(np.argsort(alt)[:k].tolist()):
+                        acc.cnt("wide_block_sensitive")
+                    _check_krum(acc, Jt, Jd, S, sigma, f, k, dtype, scores, True)
+            acc.nontriv += int(bool(S))
+
+
 def run_case(case):
+    if case["kind"] == "wide":
+        acc = _Acc()
+        _run_wide(acc, case)
+        return acc.result()
     if case["kind"] == "bufreuse":
         from torchjd import aggregation as T
 
